@@ -197,6 +197,36 @@ def run(pm, ctx):
         ctx.check('C19-R2', st == [conv], '%s converts the literal with %s' % (nm, conv), f.loc,
                   msg='%s converts the literal with %s' % (nm, st),
                   key='C19-R2|%s' % f.qualname)
+    # word literals (true/false/null) are delimited by word boundaries on both sides, so that an
+    # attribute name which merely starts or ends with one is still lexed as an identifier
+    import re as _re
+    for nm in ('t_BOOLEAN', 't_NULL'):
+        f = pm.func(H + '.FilterExprLexer.' + nm)
+        doc = ast.get_docstring(f.node, clean=False)
+        ok_b = False
+        if doc:
+            try:
+                tree = _re._parser.parse(doc)
+                AT, BOUND, BRANCH = (_re._constants.AT, _re._constants.AT_BOUNDARY,
+                                     _re._constants.BRANCH)
+
+                def edge(seq, idx):
+                    seq = list(seq)
+                    if not seq:
+                        return False
+                    op, av = seq[idx]
+                    if (op, av) == (AT, BOUND):
+                        return True
+                    if op is BRANCH:
+                        return all(edge(alt, idx) for alt in av[1])
+                    return False
+                ok_b = edge(tree, 0) and edge(tree, -1)
+            except Exception:
+                ok_b = False
+        ctx.check('C19-R2', ok_b, '%s matches whole words only (\\b on both sides)' % nm, f.loc,
+                  msg='%s pattern %r is not delimited by word boundaries on both sides: an '
+                      'attribute named e.g. nullable or trueish is split into a literal and an '
+                      'identifier' % (nm, doc), key='C19-R2|%s|boundaries' % f.qualname)
 
     # ---------------- R3
     main = pm.func(CLI + '.main')
@@ -253,6 +283,27 @@ def run(pm, ctx):
              ('k not in attrs', True) in [(unparse(e), p) for e, p in pi.at(d)] for d in dels) and \
         len(rm) == 1 and ('field.name not in attrs', True) in [
             (unparse(e), p) for e, p in pi.at(rm[0])]
+    # the three route tables are filled together by add_route: the list and the versioned table
+    # for every route, the single-version table for version 1 only
+    ar = pm.func('stone.ir.api.ApiNamespace.add_route')
+    pia = path_info(ar.node)
+    stores = {}
+    for n in own_nodes(ar.node):
+        if isinstance(n, ast.Assign) and isinstance(n.targets[0], ast.Subscript):
+            stores.setdefault(unparse(n.targets[0].value), []).append(
+                sorted((unparse(e), p) for e, p in pia.at(n)))
+        if isinstance(n, ast.Call) and isinstance(n.func, ast.Attribute) and \
+                n.func.attr == 'append' and unparse(n.func.value) == 'self.routes':
+            stores.setdefault('self.routes', []).append(
+                sorted((unparse(e), p) for e, p in pia.at(n)))
+    ok_ar = stores.get('self.routes') == [[]] and \
+        stores.get('self.route_by_name') == [[('route.version == 1', True)]] and \
+        stores.get('self.routes_by_name[route.name].at_version') == [[]]
+    ctx.check('C19-R3', ok_ar, 'add_route: routes and routes_by_name always, route_by_name exactly '
+              'for version 1', ar.loc,
+              msg='ApiNamespace.add_route fills its tables under %s: after pruning, the by-name '
+                  'tables disagree with the route list' % stores,
+              key='C19-R3|%s' % ar.qualname)
     ctx.check('C19-R3', ok, '-a trims route.attrs and the route schema with the same name set',
               main.loc, msg='-a no longer trims routes and schema by membership in the given names',
               key='C19-R3|attrs')
